@@ -491,6 +491,7 @@ def run(ctx, tier):
     results += c08.stack_never_emptied(ctx, rule='C01.stack-never-emptied')
     results += c08.index_agreement(ctx, rule='C01.index-agreement')
     results += c08.key_order(ctx, rule='C01.key-order')
+    results += c08.keys_as_bytes(ctx, rule='C01.keys-as-bytes')
     results += c08.iterator_overrides(ctx, rule='C01.iterator-overrides')
     results += c05.serialiser_total(ctx, rule='C01.serialiser-total')
     results += c05.reader_writer_tables(ctx, rule='C01.reader-writer-tables')
